@@ -22,7 +22,7 @@ Header == All[1]
 NTraces == Len(All) - 1
 Trace(t) == All[t + 1]
 Universe == SeqToSet(Header.universe)
-SizeOf(k) == Header.sizes[k]
+SizeOf(k) == IF k \in DOMAIN Header.sizes THEN Header.sizes[k] ELSE 0 - 1
 
 VARIABLES tid, l, map, mapPrev
 
@@ -43,6 +43,7 @@ KeySet(s) == SeqToSet(s)
 (* L2: the meaning of each call on a plain set of keys (content-addressed map) *)
 MapStep(m, o) ==
     CASE o.name = "add"     -> m \cup KeySet(o.keys)
+      [] o.name = "readd"   -> m \cup KeySet(o.keys)    \* damage the loose copy (if any), then store the content again
       [] o.name = "addpack" -> m \cup KeySet(o.keys)
       [] o.name = "delete"  -> m \ KeySet(o.keys)
       [] o.name = "import"  -> m \cup (KeySet(o.keys) \cap KeySet(o.src))
@@ -84,6 +85,7 @@ StoreIsMap == StoreKeys(O) = map
 (* what the call itself returned / raised *)
 ResultOK ==
     CASE op.name = "add"     -> op.raised = "" /\ op.res = op.keys
+      [] op.name = "readd"   -> op.raised = "" /\ op.res = op.keys
       [] op.name = "addpack" -> op.raised = "" /\ op.res = op.keys
       [] op.name = "delete"  -> /\ op.raised = ""
                                 /\ KeySet(op.res) = KeySet(op.keys) \cap mapPrev
@@ -119,6 +121,10 @@ C03_IndexOK == IndexOK(O)
 
 (* ---- C09 ---- *)
 C09_Dedup == Dedup(O) /\ (IsStep => Len(V.listed) = Cardinality(KeySet(V.listed)))
+(* re-adding content whose loose copy was damaged leaves a correct copy in place *)
+C09_DamagedCopyRepaired == (IsStep /\ op.name = "readd") =>
+    /\ LooseNamedByDigest(O) /\ ViewGetBulk /\ ViewGetSingle
+    /\ \A k \in KeySet(op.keys) : k \in StoreKeys(O)
 C09_NoHoles == (IsStep /\ op.name = "addpack" /\ op.noholes) => NoHolesPost(O0, O, RowKeys(O0))
 (* storing known content: same key, and with the no-holes option no pack grows for it *)
 C09_KnownNoGrowth ==
